@@ -21,7 +21,7 @@ import (
 var tmpDir string
 
 func TestMain(m *testing.M) {
-	vstat.Rule("In-process Buffer.ServeHTTP (so 'exchange completed' is exactly 'ServeHTTP returned') with a private, initially empty TMPDIR. Request: size around the memory threshold and the maximum, declared or chunked, MaxRequestBodyBytes from {0=unlimited, <thr, =thr, >thr}; response: total size around threshold and maximum in 1-6 writes, MaxResponseBodyBytes below/equal/above the threshold or unlimited, method from {GET,HEAD,POST}, status from {200,204,304,500,502}, optional retry expression (each attempt may spill; the expression may also decline). Oracle: request body > max (declared or discovered while reading) => 413 and handler not invoked, <= max => handler invoked with the full body; response > max => error status and none of the handler's bytes in the client record, <= max => delivered intact; after EVERY exchange the temp directory is empty. Spilling is self-checked (a temp file is visible from inside the handler). Non-trivial: a response that spilled to disk and (went over the maximum, or had no deliverable body: HEAD/204/304, or belonged to a discarded attempt).")
+	vstat.Rule("In-process Buffer.ServeHTTP (so 'exchange completed' is exactly 'ServeHTTP returned') with a private, initially empty TMPDIR. Request: size around the memory threshold and the maximum, declared or chunked, MaxRequestBodyBytes from {0=unlimited, <thr, =thr, >thr}; response: total size around threshold and maximum in 1-6 writes, MaxResponseBodyBytes below/equal/above the threshold or unlimited, method from {GET,HEAD,POST}, status from {200,204,304,500,502}, optional retry expression (each attempt may spill; the expression may also decline). Oracle: request body > max (declared or discovered while reading) => 413 and handler not invoked, <= max => handler invoked with the full body; response > max => error status and none of the handler's bytes in the client record, <= max => delivered intact; after EVERY exchange the temp directory is empty. Spilling is self-checked (a temp file is visible from inside the handler). Non-trivial: a response that spilled to disk and (went over the maximum, or had no deliverable body: HEAD/204/304, or belonged to a discarded attempt). Requests may declare Content-Type application/x-www-form-urlencoded; methods include PUT and PATCH.")
 	base := os.Getenv("VERIF_WORK")
 	if base == "" {
 		base = os.TempDir()
